@@ -247,4 +247,148 @@ def plan_C11(ctx):
     explore_sub(ctx, ["C11"], start=(0,), shifts=SHIFTS_Q if ctx.quick else SHIFTS_T)
     ctx.need("shifted parses", sum(e["stats"].get("Shifts", 0) for e in ctx.extra.get("explorations", [])), 10000)
 
-PLANS = dict(C02=plan_C02, C03=plan_C03, C04=plan_C04, C11=plan_C11)
+# ------------------------------------------------------------------------------------------------
+# Message-level properties: behaviours come from the TLA+ generator (spec/Gen.tla, MC_GenMsg.tla)
+def genmsg_cfg(K, part, prop):
+    return ("genmsg_%s_%d.cfg" % (part, K),
+            "SPECIFICATION Spec\nCONSTANTS\n  OffsMod = 65536\n  K = %d\n  Part = \"%s\"\n  Prop = \"%s\"\nINVARIANTS Emit\nCHECK_DEADLOCK FALSE\n" % (K, part, prop))
+
+def gen_corpus(ctx, K, part, prop, keep_every=1):
+    """Run the generator in TLC, replay its records on the code, and return a file with the generated wires."""
+    r = vlib.run_tlc("MC_GenMsg", genmsg_cfg(K, part, prop), workers=8, timeout=1500)
+    if not r["ok"]:
+        raise Machinery("TLC failed on MC_GenMsg %s K=%d:\n%s" % (part, K, r["tail"]))
+    ctx.states += r["distinct"]; ctx.transitions += r["generated"]
+    rp = vlib.replay(r["out"])
+    x = rp["extra"]
+    ctx.records += x["records"]; ctx.impl_traces += x["records"]
+    ctx.tlc_runs.append(dict(module="MC_GenMsg", cfg="%s K=%d prop=%s" % (part, K, prop), states=r["distinct"], generated=r["generated"],
+                             records=x["records"], drift=x["drift"], decl_mismatch=x["decl_mismatch"], tlc_wall_s=round(r["wall"], 1)))
+    for s_ in (rp.get("samples") or [])[:3]:
+        if len(ctx.samples) < 12: ctx.samples.append(dict(source="TLC MC_GenMsg %s K=%d, replayed on the code" % (part, K), case=s_))
+    for v in rp.get("violations") or []:
+        v["property"] = ctx.pid if prop == ctx.pid else v.get("property")
+        if v["property"] == ctx.pid: ctx.violation(v)
+    os.makedirs(vlib.WORK, exist_ok=True)
+    path = os.path.join(vlib.scratch("corpus"), "wires.ndjson")
+    seen = set(); n = 0
+    with open(path, "w") as f:
+        for line in open(r["out"], errors="replace"):
+            if not line.startswith('"{'): continue
+            rec = json.loads(json.loads(line))
+            w = tuple(rec["wire"])
+            if w in seen: continue
+            seen.add(w); n += 1
+            if n % keep_every == 0: f.write(json.dumps(rec["wire"]) + "\n")
+    shutil.rmtree(r["dir"], ignore_errors=True)
+    ctx._tmp = getattr(ctx, "_tmp", []) + [os.path.dirname(path)]
+    if n < 100: raise Machinery("vacuous: generator produced %d messages" % n)
+    return path, n
+
+def mk(kind="msg", **kw):
+    d = dict(kind=kind, start=0, flags=0, hcap=-1, ccap=-1, pcap=-1); d.update(kw); return d
+
+def msg_cfgs(rot):
+    """configurations of the whole-message parser: all 8 flag sets x capacity pairs (rotated to bound cost)"""
+    caps = [(-1, -1), (0, 0), (1, 1), (2, -1), (64, 64), (-1, 0), (3, 1)]
+    allc = [mk(flags=f, hcap=h, ccap=c) for f in range(8) for (h, c) in caps]
+    if rot is None: return allc
+    return [allc[(rot * 7 + i * 11) % len(allc)] for i in range(4)] + [mk()]
+
+def cleanup(ctx):
+    for d in getattr(ctx, "_tmp", []): shutil.rmtree(d, ignore_errors=True)
+
+def plan_C01(ctx):
+    ctx.extra["rule"] = ("Behaviours: every message derivable from the TLA+ generator Gen!GenMsg (first line x K header lines from a "
+        "44-line pool covering every value parser, folds, compact names, lone CR/LF terminators, WS before ':', empty values x blank "
+        "line) enumerated by TLC, plus seeded single-atom near-miss mutants. Code: per message x configuration (8 flag sets x 7 "
+        "capacity pairs, rotated) fresh parse of every prefix; K=1 messages: ALL (suspended p -> q) pairs (=> all schedules by "
+        "induction, full-state equality at suspensions); K=2: q in {p+1, n} + seeded sample. non-trivial = message with a "
+        "suspension and a definitive verdict.")
+    f1, n1 = gen_corpus(ctx, 1, "hdrs", "corpus")
+    ctx.explore(dict(mode="explore", props=["C01"], cfgs=msg_cfgs(None) if not ctx.quick else msg_cfgs(ctx.seed), inputs_file=f1, mutants=2), "msg K=1 all pairs")
+    f2, n2 = gen_corpus(ctx, 2, "hdrs", "corpus", keep_every=(3 if ctx.quick else 1))
+    ctx.explore(dict(mode="explore", props=["C01"], cfgs=msg_cfgs(ctx.seed + 1), inputs_file=f2, mutants=1, light=True), "msg K=2 light")
+    f3, n3 = gen_corpus(ctx, 1 if ctx.quick else 2, "framing", "corpus", keep_every=(7 if ctx.quick else 5))
+    ctx.explore(dict(mode="explore", props=["C01"], cfgs=msg_cfgs(ctx.seed + 2), inputs_file=f3, light=True), "msg framing light")
+    if not ctx.quick:
+        f4, n4 = gen_corpus(ctx, 3, "caps", "corpus")
+        ctx.explore(dict(mode="explore", props=["C01"], cfgs=msg_cfgs(ctx.seed + 3), inputs_file=f4, mutants=1, light=True), "msg K=3 light")
+    cleanup(ctx)
+    ctx.need("messages with a suspension and a definitive verdict", ctx.nontrivial, 500)
+
+def plan_C07(ctx):
+    ctx.extra["rule"] = ("Decl by construction: TLC enumerates header blocks from Gen!GenHdrLine parts (name in several spellings / compact "
+        "forms, WS before ':', value tokens with SP/HT/folds, CRLF / lone CR / lone LF, empty values, repeated headers) together with "
+        "the intended list (type by the documented table, name span, trimmed value span, count, type flags, first of type, stored "
+        "prefix for small capacities); every record is executed on the real parser and compared on exactly those keys.")
+    gen_corpus(ctx, 1, "hdrs", "C07")
+    gen_corpus(ctx, 2 if ctx.quick else 3, "hdrs" if ctx.quick else "caps", "C07")
+    gen_corpus(ctx, 2 if ctx.quick else 3, "caps", "C07")
+    if not ctx.quick: gen_corpus(ctx, 2, "hdrs", "C07")
+    cleanup(ctx)
+    ctx.nontrivial = ctx.records
+    ctx.need("generated header blocks replayed", ctx.records, 1000)
+
+def plan_C06(ctx):
+    ctx.extra["rule"] = ("Decl: Gen!Framing states what the property demands (verdict, offset, body) for flags x declared Content-Length "
+        "(absent, 0, smaller, equal, larger, 600) x available body bytes; TLC enumerates messages with these framings (Content-Length "
+        "header long/compact, first/last) and each is executed on the real parser. Pipelining: generated messages laid back to back, "
+        "parsed one after another from each returned offset with a Reset object, compared with each message parsed alone.")
+    gen_corpus(ctx, 1, "framing", "C06")
+    f, n = gen_corpus(ctx, 1 if ctx.quick else 2, "framing", "corpus", keep_every=(5 if ctx.quick else 3))
+    ctx.explore(dict(mode="pipeline", cfgs=[mk(flags=fl, hcap=h, ccap=c) for fl in (0, 2, 4, 6) for (h, c) in ((-1, -1), (2, 1))],
+                     inputs_file=f, extra=dict(depth=3 if ctx.quick else 4)), "pipelines")
+    cleanup(ctx)
+    ctx.nontrivial = ctx.records
+    ctx.need("generated framings replayed", ctx.records, 1000)
+
+def plan_C13(ctx):
+    ctx.extra["rule"] = ("CapacityIndependent (spec/Props.tla): Obs(run with small arrays) = Truncate(Obs(run with ample arrays), capacities): "
+        "verdict, offset, counts, flags, first-of-type, From/To/Call-ID/CSeq/CLen/Expires, expires summary, first/last contact equal; "
+        "stored elements a prefix; More <=> dropped. Inputs: generated messages (TLC), atom strings of the list parsers; one-shot and "
+        "cut at every (light: every third) position.")
+    f1, n1 = gen_corpus(ctx, 2, "hdrs", "corpus", keep_every=(4 if ctx.quick else 1))
+    small = [mk(flags=f, hcap=h, ccap=c) for f in (0, 1) for h in (-1, 0, 1, 2, 3) for c in (-1, 0, 1, 2)]
+    ctx.explore(dict(mode="caps", cfgs=small, inputs_file=f1, light=True), "msg capacities")
+    f2, n2 = gen_corpus(ctx, 3, "caps", "corpus", keep_every=(3 if ctx.quick else 1))
+    ctx.explore(dict(mode="caps", cfgs=small[:20], inputs_file=f2, light=True), "msg capacities K=3")
+    n = 5 if ctx.quick else 6
+    ctx.explore(dict(mode="caps", cfgs=[mk("contacts", ccap=c) for c in (0, 1, 2)], atoms=ATOMS["contacts"], maxlen=n), "contact list capacities")
+    ctx.explore(dict(mode="caps", cfgs=[mk("headersb", hcap=h, ccap=c) for h in (0, 1, 2) for c in (0, 1)], atoms=ATOMS["hdrna"], maxlen=4 if ctx.quick else 5), "header block capacities")
+    ctx.explore(dict(mode="caps", cfgs=[mk("uriparams", flags=f, pcap=p) for f in (64, 72) for p in (0, 1, 2)] +
+                     [mk("urihdrs", flags=f, pcap=p) for f in (128, 136) for p in (0, 1, 2)], atoms=ATOMS["tokparam_deep"], maxlen=6 if ctx.quick else 8), "URI list capacities")
+    cleanup(ctx)
+    ctx.nontrivial = sum(e["stats"].get("Successes", 0) for e in ctx.extra.get("explorations", []))
+    ctx.need("successful parses compared across capacities", ctx.nontrivial, 1000)
+
+PROBES = [B("INVITE sip:a SIP/2.0\r\nFrom: <sip:a@b>;tag=1\r\nContact: <sip:a@b>, <sip:c@d>\r\nP-Asserted-Identity: <sip:x@y>\r\nl: 0\r\n\r\n"),
+          B("SIP/2.0 200 OK\r\nTo: x <sip:a@b>\r\nCSeq: 1 ACK\r\nm: *\r\nX: 1\r\nY: 2\r\nZ: 3\r\n\r\n"),
+          B("REGISTER sip:r SIP/2.0\r\nCall-ID: a@b\r\nExpires: 7\r\nContact: \"x\" <sip:a@b>;expires=5;q=0.1\r\n\r\nbody")]
+
+def plan_C12(ctx):
+    ctx.extra["rule"] = ("ResetLikeNew (spec/Props.tla): histories Use(A, stop) . Reset|Init(same arrays) . Use(B): observations of Use(B) equal "
+        "those on a newly created object with pristine arrays of the same capacities. A: generated messages / atom strings, stop: "
+        "suspended at every (light: every 4th) prefix, complete, failed; B: probe inputs touching every slot, one-shot and cut in half.")
+    f1, n1 = gen_corpus(ctx, 2, "hdrs", "corpus", keep_every=(6 if ctx.quick else 1))
+    ctx.explore(dict(mode="reset", cfgs=[mk(), mk(hcap=1, ccap=1), mk(hcap=3, ccap=3, flags=1), mk(hcap=0, ccap=0, flags=4)], inputs_file=f1,
+                     light=True, mutants=1, extra=dict(probes=PROBES)), "msg reset histories")
+    hp = [B("From: <sip:a@b>;tag=1\r\nX"), B("m: <sip:a@b>, <sip:c@d>;expires=3\r\nX"), B("P-Asserted-Identity: <sip:a@b>\r\nX"), B("l: 5\r\nX"),
+          B("a: b\r\nm: <sip:q@r>\r\nCSeq: 2 ACK\r\n\r\n")]
+    ctx.explore(dict(mode="reset", cfgs=[mk("hdrlineb", ccap=1), mk("headersb", hcap=1, ccap=0), mk("headersb", hcap=3, ccap=2)],
+                     atoms=ATOMS["hdrna"], maxlen=4 if ctx.quick else 5, extra=dict(probes=hp)), "header values reset histories")
+    cp = [B("<sip:a@b>, <sip:c@d>;expires=3\r\nX"), B("\"x\" <sip:a@b>;q=0.5\r\nX"), B("*\r\nX"), B("a")]
+    ctx.explore(dict(mode="reset", cfgs=[mk("contacts", ccap=c) for c in (0, 1, 2, 3)] + [mk("pais")] + [mk("nameaddr", flags=8)],
+                     atoms=ATOMS["contacts"], maxlen=5 if ctx.quick else 6, extra=dict(probes=cp)), "contact list reset histories")
+    pp = [B("p=1;q=2;r=3"), B("a=\"x\";b"), B("a"), B("p=1&q=2&r=3")]
+    ctx.explore(dict(mode="reset", cfgs=[mk("uriparams", flags=f, pcap=p) for f in (64, 72) for p in (0, 1, 2, 4)] +
+                     [mk("urihdrs", flags=f, pcap=p) for f in (128, 136) for p in (0, 1, 2, 4)] + [mk("tokparam", flags=f) for f in (0, 8, 72)],
+                     atoms=ATOMS["tokparam_deep"], maxlen=5 if ctx.quick else 7, extra=dict(probes=pp)), "URI list reset histories")
+    sp = [B(" 12 \r\nX"), B(" 1 ACK\r\nX"), B("a@b\r\nX"), B("9")]
+    ctx.explore(dict(mode="reset", cfgs=[mk("uint"), mk("clen"), mk("cseq"), mk("callid"), mk("fline")], atoms=ATOMS["cseq"], maxlen=5 if ctx.quick else 7,
+                     extra=dict(probes=sp + [B("INVITE sip:a SIP/2.0\r\n"), B("SIP/2.0 200 OK\r\n")])), "scalar reset histories")
+    cleanup(ctx)
+    ctx.nontrivial = sum(e["stats"].get("Suspensions", 0) for e in ctx.extra.get("explorations", []))
+    ctx.need("histories abandoned while suspended", ctx.nontrivial, 1000)
+
+PLANS = dict(C01=plan_C01, C02=plan_C02, C03=plan_C03, C04=plan_C04, C06=plan_C06, C07=plan_C07, C11=plan_C11, C12=plan_C12, C13=plan_C13)
